@@ -309,6 +309,7 @@ func (c *CheckCtx) judgeDiffCases(cases []*diffCase, cfg string, label string) e
 		return err
 	}
 	a := newAbsCtx(c.Sc.Root, nil)
+	differing, unparsed := 0, 0
 	dir, err := specDir(c.Sc, c.Sc.Next("diff"))
 	if err != nil {
 		return err
@@ -319,6 +320,12 @@ func (c *CheckCtx) judgeDiffCases(cases []*diffCase, cfg string, label string) e
 	for i, dc := range cases {
 		al, bl := splitLines(dc.A), splitLines(dc.B)
 		rep := parseNoColorReport(nc[i], len(al), len(bl))
+		if dc.A != dc.B {
+			differing++
+			if !rep.WF {
+				unparsed++
+			}
+		}
 		for h := range rep.Hunks {
 			for k := range rep.Hunks[h].Lines {
 				rep.Hunks[h].Lines[k].S = a.line(rep.Hunks[h].Lines[k].S)
@@ -349,6 +356,9 @@ func (c *CheckCtx) judgeDiffCases(cases []*diffCase, cfg string, label string) e
 	}
 	if err := os.WriteFile(filepath.Join(dir, "diffcases.ndjson"), buf.Bytes(), 0o644); err != nil {
 		return err
+	}
+	if differing > 20 && unparsed*2 > differing {
+		return inconclusive("the NO_COLOR report grammar is not the one this check reads (%d of %d differing cases unparsed): the rendering changed; no verdict about the clauses of C13 (the 30-line parser needs to follow)", unparsed, differing)
 	}
 	res, err := runTLC(dir, "MC_Diff.tla", cfg, c.Workers, 30*time.Minute, "-continue")
 	if err != nil {
